@@ -159,7 +159,7 @@ def main(argv):
         ck.coq_gates(["Base", "C22", "C19"], THEOREMS, "EV.C19.Props")
     if bins:
         if ok or os.path.exists(os.path.join(COQ, "theories/C19/Corr.vo")):
-            correspondence(ck, bins["c19"], ck.scale(400, 5000))
+            correspondence(ck, bins["c19"], ck.scale(400, 1600))
         if ck.broken:
             ck.deep = True
         search(ck, bins["c19"], ck.scale(3000, 60000))
